@@ -82,6 +82,22 @@ AllT3(s) == IF s = <<>> THEN "t" ELSE And3(Head(s), AllT3(Tail(s)))
 RECURSIVE AnyT3(_)
 AnyT3(s) == IF s = <<>> THEN "f" ELSE Or3(Head(s), AnyT3(Tail(s)))
 
+\* ------------------------------------------------------ structural identity
+\* TLC's own = raises an error when it meets an integer and a sequence in
+\* the same field of two records, so identity of two arbitrary values is
+\* decided kind first.
+RECURSIVE Same(_, _)
+Same(a, b) ==
+  /\ a.k = b.k
+  /\ CASE a.k \in {"nil", "unspec"} -> TRUE
+        [] a.k \in {"bool", "int", "str"} -> a.v = b.v
+        [] a.k = "flt" -> a.n = b.n /\ a.d = b.d
+        [] a.k = "arr" -> Len(a.v) = Len(b.v) /\ \A i \in 1..Len(a.v) : Same(a.v[i], b.v[i])
+        [] a.k = "map" -> Len(a.v) = Len(b.v)
+                          /\ \A i \in 1..Len(a.v) : a.v[i][1] = b.v[i][1] /\ Same(a.v[i][2], b.v[i][2])
+        [] a.k = "range" -> a.a = b.a /\ a.b = b.b
+IsNil(v) == v.k = "nil"
+
 \* --------------------------------------------------------------- equality
 \* C09: numbers by value across int/float, strings by bytes, nil only nil,
 \* arrays element-wise, unlike kinds never equal.  Equality of two maps is
@@ -97,8 +113,8 @@ Eq3(a, b) ==
          [] a.k = "str" -> B3(a.v = b.v)
          [] a.k = "arr" -> IF Len(a.v) # Len(b.v) THEN "f"
                            ELSE AllT3([i \in 1..Len(a.v) |-> Eq3(a.v[i], b.v[i])])
-         [] a.k = "map" -> IF a = b THEN "t" ELSE "u"
-         [] a.k = "range" -> IF a = b THEN "t" ELSE "u"
+         [] a.k = "map" -> IF Same(a, b) THEN "t" ELSE "u"
+         [] a.k = "range" -> IF Same(a, b) THEN "t" ELSE "u"
          [] OTHER -> "u"
 
 \* C09: numbers numerically, strings lexically, unlike kinds and nil never
